@@ -118,7 +118,10 @@ def cases(draw, versions):
             name, pool = draw(st.sampled_from(ZNAMES)), 'z-segment'
         else:
             name, pool = draw(st.sampled_from(UNKNOWN_NAMES)), 'undefined-name'
-        if pool in ('z-segment', 'undefined-name'):
+        if draw(st.integers(0, 9)) == 0:
+            lines.append(name)          # a line that is nothing but the segment name: a segment without fields
+            flags.add('bare-name-line')
+        elif pool in ('z-segment', 'undefined-name'):
             lines.append(draw(z_line(name, v, ec)))
         else:
             line, fl = draw(rich_line(v, name, ec))
